@@ -1,4 +1,6 @@
-package main
+// Package fsync drives the real fast sync (protocol.fastSync through its export shim) of a follower replica
+// against a source replica; shared by C09 (crash points of the whole operation) and C11 (what the synced node stores).
+package fsync
 
 // C09, part 2: a crash at any point of a fast sync (header / identity-diff replay onto the
 // preliminary copies, snapshot import, AtomicSwitchToPreliminary and the deletion of the old
@@ -11,14 +13,14 @@ package main
 import (
 	"bytes"
 	"fmt"
+	"os"
 	"runtime/debug"
 	"strings"
 
 	"github.com/idena-network/idena-go/blockchain/types"
-	"github.com/idena-network/idena-go/common"
 	"github.com/idena-network/idena-go/core/state"
 	"github.com/idena-network/idena-go/core/state/snapshot"
-	"github.com/idena-network/idena-go/core/validators"
+	"github.com/idena-network/idena-go/protocol"
 	"github.com/idena-network/idena-go/verifhook"
 	"verif/mc/crashdb"
 	"verif/mc/replica"
@@ -35,6 +37,7 @@ func fsScripts(thorough bool) []fsScript {
 	s := []fsScript{
 		{"plain + kill + snapshot", [][]string{{"send X1->X2 1"}, {"kill V2"}, {}, {"send X2->X1 2"}, {}, {}, {"send X1->X2 1"}, {}}},
 		{"delegations and empty blocks", [][]string{{"delegate D1->P", "delegate D2->P"}, {"@empty"}, {}, {"undelegate D1"}, {"kill D1"}, {}, {"@empty"}, {"send X1->X2 1"}}},
+		{"status switch applied by a tx-less block (the proposer changes with it)", [][]string{{}, {}, {}, {"online V1"}, {}, {}, {"send X1->X2 1"}, {}, {}, {}}},
 		{"contract + god hand-over", [][]string{{}, {}, {"deploy timelock X1 stake ok"}, {"changeGodKeep"}, {"kill N1"}, {}, {}, {}}},
 	}
 	if thorough {
@@ -62,8 +65,19 @@ func buildSource(sc fsScript) *fsSource {
 	src := &fsSource{r: S, images: map[uint64]replica.Image{S.Chain.Head.Height(): replica.Snapshot(S.DB)}, base: S.Chain.Head.Height()}
 	menu := world.Menu()
 	now := int64(world.T0)
+	cur := world.G
 	for _, names := range sc.blocks {
 		now += 20
+		// the proposer (and the one-member committee that certifies) follows the state: the god while nobody is
+		// online, the online validator afterwards
+		if k := world.PickProposer(S); k != cur {
+			S2, err := world.OpenAs(o, replica.Snapshot(S.DB), now, k)
+			if err != nil {
+				panic(err)
+			}
+			S, cur = S2, k
+			src.r = S
+		}
 		var blk *types.Block
 		if len(names) == 1 && names[0] == "@empty" {
 			replica.SetTime(now)
@@ -97,7 +111,16 @@ func buildSource(sc fsScript) *fsSource {
 		if err := S.Add(blk); err != nil {
 			panic(fmt.Sprintf("source block %d: %v", blk.Height(), err))
 		}
-		cert := S.SelfCert(blk, world.G) // god-only network: the god's vote is the committee's
+		cert := S.SelfCert(blk, cur) // one-member committee: the god, or the only online validator
+		if os.Getenv("VERIF_C09_DEBUG") != "" {
+			d := S.Chain.GetIdentityDiff(blk.Height())
+			n := -1
+			if d != nil {
+				bb, _ := d.ToBytes()
+				n = len(bb)
+			}
+			fmt.Fprintf(os.Stderr, "DEBUG %q h=%d proposer=%d txs=%d flags=%b diffBytes=%d empty=%v\n", sc.name, blk.Height(), cur, len(blk.Body.Transactions), blk.Header.Flags(), n, blk.IsEmpty())
+		}
 		src.blocks = append(src.blocks, blk)
 		src.certs = append(src.certs, cert)
 		src.images[blk.Height()] = replica.Snapshot(S.DB)
@@ -105,67 +128,39 @@ func buildSource(sc fsScript) *fsSource {
 	return src
 }
 
-// fastSync replays protocol/fast.go on F up to the manifest height m and switches. It follows
-// preConsuming: a node that already has a preliminary head resumes from it (LoadPreliminary), and
-// drops the preliminaries and starts over when they cannot be loaded.
+// fastSync runs the real protocol.fastSync on F up to the manifest height m: preConsuming (incl. the resume
+// from an existing preliminary head, or dropping preliminaries that cannot be loaded), then for every header
+// the real validateHeader / applyDeferredBlocks exactly as processBatch calls them (export shim
+// protocol.VerifFastSync; the harness plays the peer and serves header, stored certificate and identity diff
+// of the source). Only the tail of postConsuming is mirrored here - the snapshot arrives as a byte stream
+// instead of an IPFS download (SnapshotManager.DownloadSnapshot needs a real IPFS node): RecoverSnapshot2,
+// SaveForcedVersion and AtomicSwitchToPreliminary are the real functions called in postConsuming's order.
 func fastSync(F *replica.Replica, src *fsSource, m uint64) error {
 	chain := F.Chain
-	var idb *state.IdentityStateDB
-	var err error
-	if chain.PreliminaryHead == nil {
-		chain.PreliminaryHead = chain.Head
-		if idb, err = F.App.IdentityState.CreatePreliminaryCopy(chain.Head.Height()); err != nil {
-			return fmt.Errorf("createPreliminaryCopy: %w", err)
-		}
-	} else if idb, err = F.App.IdentityState.LoadPreliminary(chain.PreliminaryHead.Height()); err != nil {
-		// dropPreliminaries
-		chain.RemovePreliminaryHead(nil)
-		chain.RemovePreliminaryConsensusVersion()
-		chain.RemovePreliminaryIntermediateGenesis()
-		F.App.IdentityState.DropPreliminary()
-		return fastSync(F, src, m)
+	mf := &snapshot.Manifest{Height: m}
+	fsx := protocol.VerifNewFastSync(chain, F.App, F.Ipfs, mf, F.Bus, F.Sec.GetAddress(), replica.KeyStore(), replica.Subs(), F.Upgrader)
+	from, err := fsx.PreConsuming(chain.Head)
+	if err != nil {
+		return fmt.Errorf("preConsuming: %w", err)
 	}
-	vals := validators.NewValidatorsCache(idb, F.App.State.GodAddress())
-	vals.Load()
-	if chain.PreliminaryHead.Height() > m {
-		return fmt.Errorf("preliminary head %d above the manifest height %d", chain.PreliminaryHead.Height(), m)
+	if from > m+1 {
+		return fmt.Errorf("preliminary head %d above the manifest height %d", from-1, m)
 	}
-	// processBatch / applyDeferredBlocks, one block at a time
-	for h := chain.PreliminaryHead.Height() + 1; h <= m; h++ {
+	for h := from; h <= m; h++ {
 		blk := src.block(h)
 		cert := src.r.Chain.GetCertificate(blk.Hash())
 		diff := src.r.Chain.GetIdentityDiff(h)
-		prev := chain.PreliminaryHead
-		if err := chain.ValidateHeader(blk.Header, prev); err != nil {
-			return fmt.Errorf("validateHeader %d: %w", h, err)
+		if diff == nil {
+			diff = &state.IdentityStateDiff{}
 		}
-		if blk.Header.Flags().HasFlag(types.IdentityUpdate|types.Snapshot|types.NewGenesis) && cert.Empty() {
-			return fmt.Errorf("certificate missing at %d", h)
-		}
-		if !cert.Empty() {
-			if err := chain.ValidateBlockCert(prev, blk.Header, cert, vals, map[string]common.Address{}); err != nil {
-				return fmt.Errorf("certificate of %d: %w", h, err)
-			}
-		}
-		idb.AddDiff(h, diff)
-		if idb.Root() != blk.Header.IdentityRoot() {
-			return fmt.Errorf("identity root is invalid at %d", h)
-		}
-		if !diff.Empty() {
-			idb.CommitTree(int64(h))
-		}
-		if err := chain.AddHeaderUnsafe(blk.Header); err != nil {
-			return err
-		}
-		if !diff.Empty() {
-			vals.UpdateFromIdentityStateDiff(diff)
-		}
-		chain.WriteIdentityStateDiff(h, diff)
-		if !cert.Empty() {
-			chain.WriteCertificate(blk.Hash(), cert, true)
+		if err := fsx.Feed(blk.Header, cert, diff); err != nil {
+			return fmt.Errorf("header %d: %w", h, err)
 		}
 	}
-	// postConsuming: the snapshot of the source at height m
+	if fsx.Deferred() != 0 {
+		return fmt.Errorf("%d headers left without a certified descendant", fsx.Deferred())
+	}
+	// postConsuming
 	if chain.PreliminaryHead.Height() != m {
 		return fmt.Errorf("preliminary head is lower than manifest's head")
 	}
@@ -178,14 +173,17 @@ func fastSync(F *replica.Replica, src *fsSource, m uint64) error {
 	if err != nil {
 		return fmt.Errorf("source cannot export its state: %w", err)
 	}
+	mf.Root = root
 	if err := F.App.State.RecoverSnapshot2(m, chain.PreliminaryHead.Root(), bytes.NewReader(buf.Bytes())); err != nil {
 		return fmt.Errorf("RecoverSnapshot2: %w", err)
 	}
-	idb.SaveForcedVersion(chain.PreliminaryHead.Height())
-	return chain.AtomicSwitchToPreliminary(&snapshot.Manifest{Height: m, Root: root})
+	fsx.IdentityStateDB().SaveForcedVersion(chain.PreliminaryHead.Height())
+	return chain.AtomicSwitchToPreliminary(mf)
 }
 
-func fastSyncPart(run *report.Run) {
+// Part runs every fast sync of the script set; with crash=true every prefix of each sync's write log is
+// additionally crash-tested (C09), otherwise only the completed syncs are judged (C11).
+func Part(run *report.Run, crash bool) {
 	saved := verifhook.GoPolicy
 	verifhook.GoPolicy = func(site string) verifhook.GoMode {
 		if strings.Contains(site, "AtomicSwitchToPreliminary") {
@@ -229,7 +227,36 @@ func fastSyncPart(run *report.Run) {
 					run.Violation("fast-sync-result", fmt.Sprintf("%s: after the switch head=%d, state root ok=%v, identity root ok=%v", what, F.Chain.Head.Height(), F.Chain.Head.Root() == F.App.State.Root(), F.Chain.Head.IdentityRoot() == F.App.IdentityState.Root()), nil)
 					return
 				}
+				// what the node stores for the heights it did not execute is what it will serve to the next
+				// syncing node: the identity diffs and certificates must be the source's
+				for h := h0 + 1; h <= m; h++ {
+					want, got := src.r.Chain.GetIdentityDiff(h), F.Chain.GetIdentityDiff(h)
+					var wb, gb []byte
+					if want != nil {
+						wb, _ = want.ToBytes()
+					}
+					if got != nil {
+						gb, _ = got.ToBytes()
+					}
+					if !bytes.Equal(wb, gb) {
+						run.Violation("fast-sync:identity-diff-differs", fmt.Sprintf("%s: the identity diff stored for height %d (%d bytes) is not the source's (%d bytes; block has %d txs): a node syncing from this one cannot replay it to the header's identity root", what, h, len(gb), len(wb), len(src.block(h).Body.Transactions)), nil)
+						return
+					}
+					wc, gc := src.r.Chain.GetCertificate(src.block(h).Hash()), F.Chain.GetCertificate(src.block(h).Hash())
+					if !wc.Empty() && gc.Empty() {
+						run.Violation("fast-sync:certificate-missing", fmt.Sprintf("%s: the certificate of height %d is not stored after the fast sync", what, h), nil)
+						return
+					}
+					run.Add("fast_sync_heights_compared", 1)
+					if len(wb) > 0 && len(src.block(h).Body.Transactions) == 0 {
+						run.Add("fast_sync_txless_blocks_with_identity_diff", 1)
+					}
+				}
 				n := len(cdb.Log)
+				if !crash {
+					run.Sample(map[string]interface{}{"operation": what, "heights_compared": m - h0})
+					continue
+				}
 				for k := 0; k <= n; k++ {
 					if !fsRecover(run, o, src, cdb, src.images[h0], k, what, h0, m) {
 						return
@@ -279,7 +306,7 @@ func fsRecover(run *report.Run, o replica.Opts, src *fsSource, cdb *crashdb.DB, 
 		return false
 	}
 	run.Outcome(fmt.Sprintf("fast sync: restarted at %s", map[bool]string{true: "old head", false: "snapshot height"}[h == h0]))
-	if rb := ref.Chain.GetBlockHeaderByHeight(h); (rb == nil || rb.Hash() != rec.Chain.Head.Hash()) {
+	if rb := ref.Chain.GetBlockHeaderByHeight(h); rb == nil || rb.Hash() != rec.Chain.Head.Hash() {
 		run.Violation("fast-sync:head-not-on-reference-chain", tag+": restarted head is not a block of the source chain", rp)
 		return false
 	}
